@@ -158,12 +158,12 @@ impl C02 {
             // files whose bytes equal the serialised tree of directory d3 of the same version (once
             // sorted before d3, once after) and of directory d1 of the previous version
             if let Some(bytes) = tree_bytes_of(&source(v), "d3") {
-                t.insert("d2/treecopy", Entry::file(bytes.clone(), T0 + 50));
-                t.insert("d4/treecopy", Entry::file(bytes, T0 + 50));
+                t.insert("d2/treecopy", Entry::file(bytes.clone(), T0 + 50 + v as i64));
+                t.insert("d4/treecopy", Entry::file(bytes, T0 + 50 + v as i64));
             }
             if v >= 1 {
                 if let Some(bytes) = tree_bytes_of(&source(v - 1), "d1") {
-                    t.insert("d4/oldtreecopy", Entry::file(bytes, T0 + 50));
+                    t.insert("d4/oldtreecopy", Entry::file(bytes, T0 + 50 + v as i64));
                 }
             }
         }
@@ -176,7 +176,7 @@ pub fn tree_bytes_of(t: &Entry, dir: &str) -> Option<Vec<u8>> {
     let env = Env::single();
     _ = env.init_with(vkit::rep::base_config(2)).ok()?;
     let repo = env.open_ids().ok()?;
-    let snap = backup_with(&repo, &MemSource::new("r", t.clone()), "x", T0, &BackupOptions::default()).ok()?;
+    let snap = backup_with(&repo, &MemSource::new("r", t.clone()), "x", T0, &vkit::rep::bopts()).ok()?;
     let full = env.open_full().ok()?;
     let node = full.node_from_snapshot_and_path(&snap, &format!("r/{dir}")).ok()?;
     let id = node.subtree?;
@@ -284,11 +284,11 @@ impl SeqModel for C02 {
                         let repo = env.open_ids().map_err(|e| err("open", e))?;
                         // ... and runs on the current one
                         env.set_store(s.store.clone());
-                        backup_with(&repo, &src, &label, time, &BackupOptions::default())
+                        backup_with(&repo, &src, &label, time, &vkit::rep::bopts())
                     }
                     _ => {
                         let repo = env.open_ids().map_err(|e| err("open", e))?;
-                        backup_with(&repo, &src, &label, time, &BackupOptions::default())
+                        backup_with(&repo, &src, &label, time, &vkit::rep::bopts())
                     }
                 };
                 _ = res.map_err(|e| err("backup", e))?;
